@@ -252,7 +252,7 @@ pub fn run(ctx: &Ctx) -> i32 {
     );
     rep.assume("the compact format does not print the end line; only what is printed is compared");
     let per_shard = ctx.tier.pick(5, 150);
-    let acc = run_sharded(ctx.jobs, |shard| {
+    let acc = run_sharded(ctx, |shard| {
         let mut acc = Acc::new();
         for k in 0..per_shard {
             let mut rng = Rng::derive(ctx.seed, 18_000 + shard as u64, k as u64);
